@@ -150,8 +150,8 @@ pub enum Domain {
     Huge,
 }
 
-pub const N_REGIMES: usize = 10;
-pub const REGIME_NAMES: [&str; N_REGIMES] = ["walk", "trend", "alternate", "spikes", "plateaus", "sawtooth", "nearflat", "gridties", "widemag", "tinyzero"];
+pub const N_REGIMES: usize = 11;
+pub const REGIME_NAMES: [&str; N_REGIMES] = ["walk", "trend", "alternate", "spikes", "plateaus", "sawtooth", "nearflat", "gridties", "widemag", "tinyzero", "geometric"];
 
 /// Expand (regime, base, aux, noise) into a value stream. Pure function.
 pub fn expand(domain: Domain, regime: usize, base: f64, aux: f64, noise: &[f64]) -> Vec<f64> {
@@ -159,6 +159,7 @@ pub fn expand(domain: Domain, regime: usize, base: f64, aux: f64, noise: &[f64])
     let mut out = Vec::with_capacity(n);
     let mut x = base * (1.0 + aux);
     let saw_p = 2 + (aux * 9.0) as usize;
+    let mut geo_down = true;
     for (i, &u) in noise.iter().enumerate() {
         let v = match regime {
             0 => {
@@ -197,6 +198,22 @@ pub fn expand(domain: Domain, regime: usize, base: f64, aux: f64, noise: &[f64])
                 let e = -6.0 + 18.0 * u;
                 10f64.powf(e)
             }
+            10 => {
+                // smooth multi-decade sell-off (then rally): every step moves 2 % .. 30 % in one direction,
+                // no single step dominates; turns around after ~12 decades
+                if i == 0 {
+                    x = base * 1e3 * (1.0 + aux);
+                }
+                let rate = 0.02 + 0.28 * aux * aux;
+                if x < base * 1e-9 {
+                    geo_down = false;
+                } else if x > base * 2e3 {
+                    geo_down = true;
+                }
+                let f = 1.0 - rate * (0.3 + 0.7 * u);
+                x = if geo_down { x * f } else { x / f };
+                x
+            }
             _ => {
                 // signed zeros, subnormals and the smallest normals between ordinary values (the first
                 // value is ordinary so that the largest magnitude M is a normal number)
@@ -213,7 +230,7 @@ pub fn expand(domain: Domain, regime: usize, base: f64, aux: f64, noise: &[f64])
     }
     match domain {
         Domain::Positive => {
-            let (lo, hi) = if base < 1e-3 || base > 1e9 { (base * 1e-3, base * 1e7) } else { (1e-3, 1e9) };
+            let (lo, hi) = if base < 1e-3 || base > 1e9 { (base * 1e-3, base * 1e7) } else if regime == 10 { (base * 1e-10, base * 1e7) } else { (1e-3, 1e9) };
             for v in out.iter_mut() {
                 *v = v.abs().clamp(lo, hi);
             }
@@ -270,10 +287,12 @@ pub fn expand(domain: Domain, regime: usize, base: f64, aux: f64, noise: &[f64])
 fn base_strategy(domain: Domain) -> BoxedStrategy<f64> {
     match domain {
         Domain::AnySign => prop_oneof![
-            3 => (-3.0f64..6.0).prop_map(|e| 10f64.powf(e)),
-            1 => Just(1.0),
-            1 => Just(1e-6),
-            1 => Just(1e5),
+            12 => (-3.0f64..6.0).prop_map(|e| 10f64.powf(e)),
+            4 => Just(1.0),
+            4 => Just(1e-6),
+            4 => Just(1e5),
+            1 => Just(1e-17),
+            1 => Just(3e-30),
         ]
         .boxed(),
         Domain::Positive => prop_oneof![
@@ -311,7 +330,7 @@ pub struct Stream {
 pub fn stream(domain: Domain, min_len: usize, max_len: usize) -> BoxedStrategy<Stream> {
     (0..N_REGIMES, base_strategy(domain), 0.0f64..1.0, vec(0.0f64..1.0, min_len..=max_len))
         .prop_map(move |(regime, base, aux, noise)| {
-            let regime = if domain != Domain::AnySign && regime >= 8 { regime - 8 } else { regime };
+            let regime = if domain != Domain::AnySign && (regime == 8 || regime == 9) { regime - 8 } else { regime };
             // spikes of 1e6x would leave the tiny range: use the walk instead
             let regime = if matches!(domain, Domain::TinyPositive | Domain::TinyAnySign | Domain::TinyNormal | Domain::Huge) && (regime == 3 || regime == 2) { 0 } else { regime };
             Stream { regime, vals: expand(domain, regime, base, aux, &noise) }
@@ -415,7 +434,7 @@ pub fn bar_stream(grid: bool, min_len: usize, max_len: usize) -> BoxedStrategy<B
         vec((0.0f64..1.0, 0.0f64..1.0, 0.0f64..1.0, 0.0f64..1.0, 0.0f64..1.0), 1..=64),
     )
         .prop_map(move |(regime, base, aux, noise, shape)| {
-            let regime = if regime >= 8 { regime - 8 } else { regime };
+            let regime = if regime == 8 || regime == 9 { regime - 8 } else { regime };
             let vals = expand(dom, regime, base, aux, &noise);
             let g = if grid { Some(grid_step(base)) } else { None };
             BarStream { regime, bars: bars_from(&vals, &shape, g) }
@@ -480,11 +499,11 @@ pub fn raw_bar(field: fn() -> BoxedStrategy<f64>) -> BoxedStrategy<RawBar> {
 
 /// a consistent bar of moderate size
 pub fn valid_bar() -> BoxedStrategy<RawBar> {
-    (1.0f64..200.0, 0.0f64..1.0, 0.0f64..1.0, 0.0f64..1.0, 0.0f64..1.0, 0usize..6)
+    (1.0f64..200.0, 0.0f64..1.0, 0.0f64..1.0, 0.0f64..1.0, 0.0f64..1.0, 0usize..7)
         .prop_map(|(mid, a, b, c, o, vc)| {
             let h = mid * (1.0 + 0.1 * a);
             let l = mid * (1.0 - 0.1 * b);
-            let v = [0.0, 1.0, 10.0, 1234.5, 1e6, 0.5][vc];
+            let v = [0.0, 1.0, 10.0, 1234.5, 1e6, 0.5, 1e21][vc];
             RawBar { o: l + (h - l) * o, h, l, c: l + (h - l) * c, v }
         })
         .boxed()
